@@ -221,26 +221,49 @@ def totalSectorsFieldsBad (p : Bpb) : Bool :=
   || (p.totalSectors16 == 0 && p.totalSectors32 == 0)
   || (p.totalSectors16 != 0 && p.totalSectors32 != 0 && p.totalSectors16 != p.totalSectors32)
 
+/-- `first_data_sector_64` of `validate_total_sectors`: the region sum in `u64`
+    (`reserved + fats * sectors_per_fat + root_dir_sectors()`, evaluated left to right) -/
+def firstDataSector64 (p : Bpb) : Except Err Nat := do
+  let fatSectors ← u64Mul p.fats p.sectorsPerFat
+  let s ← u64Add p.reservedSectors fatSectors
+  let rootDirSectors ← p.rootDirSectors
+  u64Add s rootDirSectors
+
 def validateTotalSectors (p : Bpb) : Except Err Unit :=
   if p.totalSectorsFieldsBad = true then .error .corrupted
   else do
-    let firstDataSector ← p.firstDataSector
-    if p.totalSectors ≤ firstDataSector then .error .corrupted else pure ()
+    let firstDataSector64 ← p.firstDataSector64
+    if firstDataSector64 > 0xFFFFFFFF then .error .corrupted
+    else do
+      let firstDataSector ← p.firstDataSector
+      if p.totalSectors ≤ firstDataSector then .error .corrupted else pure ()
 
 def validateSectorsPerFat (p : Bpb) : Except Err Unit :=
   if p.isFat32 = true ∧ p.sectorsPerFat32 = 0 then .error .corrupted else .ok ()
 
-/-- the tail of `validate_total_clusters`: `sectors_per_fat * bytes_per_sector * 8 / bits - 2` (feeds a warning) -/
+/-- `FatType::max_clusters` -/
+def maxClusters : FatType → Nat
+  | .fat12 => 4084 | .fat16 => 65524 | .fat32 => 0x0FFFFFF4
+
+/-- the tail of `validate_total_clusters`, in `u64`:
+    `(sectors_per_fat * bytes_per_sector * 8 / bits).saturating_sub(2)` (feeds a warning) -/
 def usableFatEntries (p : Bpb) (ft : FatType) : Except Err Nat := do
-  let a ← u32Mul p.sectorsPerFat p.bytesPerSector
-  let b ← u32Mul a 8
-  let totalFatEntries ← u32Div b ft.bits
-  u32Sub totalFatEntries 2
+  let a ← u64Mul p.sectorsPerFat p.bytesPerSector
+  let b ← u64Mul a 8
+  let totalFatEntries ← u64Div b ft.bits
+  pure (totalFatEntries - 2)
+
+/-- the FAT32 root-cluster range check of `validate_total_clusters`:
+    `root_dir_first_cluster < 2 || root_dir_first_cluster - 2 >= total_clusters` (the subtraction is guarded) -/
+def rootClusterBad (p : Bpb) (totalClusters : Nat) : Bool :=
+  p.isFat32 && (decide (p.rootDirFirstCluster < 2) || decide (p.rootDirFirstCluster - 2 ≥ totalClusters))
 
 def validateTotalClusters (p : Bpb) : Except Err Unit := do
   let totalClusters ← p.totalClusters
   if p.isFat32 ≠ decide (FatType.fromClusters totalClusters = .fat32) then .error .corrupted
-  else if FatType.fromClusters totalClusters = .fat32 ∧ totalClusters > 0x0FFFFFFF then .error .corrupted
+  else if FatType.fromClusters totalClusters = .fat32 ∧ totalClusters > maxClusters (FatType.fromClusters totalClusters)
+    then .error .corrupted
+  else if p.rootClusterBad totalClusters = true then .error .corrupted
   else do
     let _usable ← p.usableFatEntries (FatType.fromClusters totalClusters)
     pure ()
